@@ -475,6 +475,20 @@ class ExprMixin(object):
     # only meaningful as an argument of all/any/tuple/set/frozenset/list/sorted: handled there
     raise Unsupported('bare generator expression')
 
+  def opaque_iterable(self, src):
+    return getattr(self, 'mode', 'vc') == 'event' and (
+        isinstance(src, VBound) or isinstance(src, VRef) and src.ty.kind in ('any', 'opt', 'union', 'callable'))
+
+  def opaque_comp(self, kind, elt, g, src, st):
+    """A comprehension over an opaque iterable (event mode): ONE observable action labelled by its own text, applied
+    to the iterable and to the values of the local names it mentions (what runs per element is fixed by the text)."""
+    bound = {x.id for x in ast.walk(g.target) if isinstance(x, ast.Name)}
+    free = sorted({x.id for part in [elt] + list(g.ifs) for x in ast.walk(part)
+                   if isinstance(x, ast.Name) and x.id not in bound and x.id in st.env})
+    label = 'comprehension:%s:%s for %s%s' % (kind, ast.dump(elt), ast.dump(g.target),
+                                              ''.join(' if ' + ast.dump(i) for i in g.ifs))
+    yield from self.call_opaque(None, [src] + [st.env[x] for x in free], {}, st, label=label)
+
   def ev_ListComp(self, n, st):
     yield from self.list_comp(n, st, 'list')
 
@@ -483,6 +497,9 @@ class ExprMixin(object):
     for st1, src in self.ev(g.iter, st):
       if isinstance(src, Exc):
         yield st1, src
+        continue
+      if self.opaque_iterable(src):
+        yield from self.opaque_comp(kind, n.elt, g, src, st1)
         continue
       yield st1, self.comp_to_seq(n.elt, g, src, st1, kind)
 
